@@ -113,7 +113,11 @@ fn monitor(rep: &mut Report, history: u64, st: &Step) {
     let secrets = secrets_of(&all);
     rep.count_n("live_secrets", secrets.len() as u64);
     let case = json!({"index": history, "step": st.index, "op": st.op.json(), "config": st.cfg.json()});
-    let renders = renderings(st);
+    let mut renders = renderings(st);
+    // whatever the library logged during this step (a sink logger is installed, see logsink.rs)
+    for line in crate::logsink::drain() {
+        renders.push(Render { kind: "log-line".into(), bytes: line.into_bytes() });
+    }
     scan_all(rep, &secrets, &renders, &case);
     // attested key labels
     let ad_bytes: Option<Vec<u8>> = match st.outcome {
@@ -170,7 +174,7 @@ pub fn run(args: &Args) -> Report {
         "C06",
         &args.tier,
         args.seed,
-        "every value handed back in seeded ceremony histories (WebAuthn credentials, CTAP2 responses, errors, authenticator info, U2F responses, Debug of stored passkeys) rendered to JSON, CBOR and Debug text and scanned, with recursive decoding, for every secret read back from the store; distinct by (rendering kind, content hash bucket); non-trivial when the value contains at least one byte string of 32 bytes or more while at least one secret is live",
+        "every value handed back in seeded ceremony histories (WebAuthn credentials, CTAP2 responses, errors, authenticator info, U2F responses, Debug of stored passkeys, lines the library logs to an installed logger) rendered to JSON, CBOR and Debug text and scanned, with recursive decoding, for every secret read back from the store; distinct by (rendering kind, content hash bucket); non-trivial when the value contains at least one byte string of 32 bytes or more while at least one secret is live",
     );
     rep.assumptions.push("PRF outputs are HMACs of a secret, not the secret; chance collisions of random 32-byte values are ignored".into());
     match taint::self_test() {
